@@ -29,7 +29,7 @@ class StoreW(OW):
     def vlen(self):
         r = self.r
         x = r.random()
-        if self.big and x < 0.15: return r.choice([70000, 131072, 200000, 300000])
+        if self.big and x < getattr(self, "big_p", 0.15): return r.choice(getattr(self, "big_sizes", [70000, 131072, 200000, 300000]))
         if x < 0.45: return r.choice([0, 1, 12, 15, 16, 17, 24, 40])
         if x < 0.8: return r.choice([100, 255, 256, 511, 512, 513, 1000])
         return r.choice([4095, 4096, 4097, 8191, 8192, 8193, 20000])
